@@ -4,7 +4,7 @@
   ('le', 5.0)), ('dictof', [(('inst', ('str',)), ('inst', ('int',)))]); `build` makes the real
   predicate object, `sexp` the wire form of the model tree (set members in the object's own iteration
   order, the two optimizer guards of `&` computed by the real `optimize`).
-* values: `lift_val` Python value -> wire s-expression with exact floats (`(f k)`, k = x * 2**1074),
+* values: `lift_val` Python value -> wire s-expression with exact floats (`(f k)`, k = x * 2**1074; `(F 0)` = +inf, `(F 1)` = -inf),
   `canon` puts set members in `GVal.key` order so that both sides compare as strings.
 * `Patched(raws)`: context manager that replaces, as seen from the library's modules, random.randint /
   random.uniform / helpers.choices / more_itertools.recipes.randrange / .sample / helpers.uuid4 /
@@ -94,6 +94,8 @@ def lift_val(x):
     if t is int:
         return ("i", str(x))
     if t is float:
+        if x == math.inf or x == -math.inf:
+            return ("F", "1" if x < 0 else "0")  # GVal.inf neg
         return ("f", str(fk(x)))
     if t is str:
         return ("s", *[str(ord(c)) for c in x])
@@ -145,6 +147,8 @@ def key(sx):
         return [10, int(sx[1])]
     if h == "C":
         return [11, int(sx[1]), int(sx[2])]
+    if h == "F":
+        return [12, 0 if sx[1] == "1" else 1]
     raise HarnessError(f"bad value s-expression {sx!r}")
 
 
@@ -322,7 +326,12 @@ class Tape:
         return clamp(self.raw(), lo, hi)
 
     def uniform(self, lo, hi):
-        klo, khi = fk(float(lo)), fk(float(hi))
+        lo, hi = float(lo), float(hi)
+        if not (math.isfinite(lo) and math.isfinite(hi)):
+            # random.uniform with an infinite end returns inf or nan: no answer in the model; the request is logged and shows in the comparison
+            self.log.append(("uniform", repr(lo), repr(hi)))
+            raise NotInUniverse(f"random.uniform({lo!r}, {hi!r})")
+        klo, khi = fk(lo), fk(hi)
         self.log.append(("uniform", klo, khi))
         return kf(clamp(self.raw(), klo, khi))
 
@@ -506,14 +515,19 @@ def make_tape(rng, length, style, bounds=()):
     """Raw tapes: every entry is either a small int (|r| <= 2**53, which is also a valid subnormal in float units)
     or the float units of a double, so that a uniform() answer is always a double."""
     big = BIG
-    fpts = [fk(x) for x in float_points()] + [fk(float(b)) for b in bounds if isinstance(b, float)]
+    fpts = [fk(x) for x in float_points()] + [fk(float(b)) for b in bounds if isinstance(b, float) and math.isfinite(b)]
     ipts = [0, 1, -1, 2, 5, 9, 10, 11, 61, 99, 100, 101, -99, -100, -101, 1000, -1000] + [b for b in bounds if isinstance(b, int) and not isinstance(b, bool) and abs(b) <= 2**53]
     near = []
     for b in bounds:
         if isinstance(b, int) and not isinstance(b, bool) and abs(b) <= 2**52:
             near += [b - 1, b, b + 1, b + 5, b - 5, b + 50, b - 50, b + 100, b - 100]
-        if isinstance(b, float):
-            near += [fk(math.nextafter(b, math.inf)), fk(math.nextafter(b, -math.inf)), fk(b * 2), fk(b / 2), fk(b + 1.0), fk(b - 1.0)]
+        if isinstance(b, float) and math.isfinite(b):
+            # neighbours of the bound and of the widened default; at the edge of the double range those that are still doubles,
+            # plus the extremes of the range that is requested there (the largest double and its neighbour)
+            cand = [math.nextafter(b, math.inf), math.nextafter(b, -math.inf), b * 2, b / 2, b + 1.0, b - 1.0]
+            if abs(b) > 1e307:
+                cand += [sys.float_info.max, -sys.float_info.max, math.nextafter(sys.float_info.max, 0.0), math.nextafter(-sys.float_info.max, 0.0)]
+            near += [fk(x) for x in cand if math.isfinite(x)]
     out = []
     for _ in range(length):
         if style == "lo":
@@ -576,7 +590,9 @@ U0, U1, U2 = uuid.UUID(int=0), uuid.UUID(int=2**127 + 12345), uuid.UUID(int=2**1
 MAXS = _sys.maxsize
 
 INT_BOUNDS = [0, 1, -1, 99, -99, 100, -100, 101, -101, 1000, -1000, MAXS, -MAXS, MAXS + 1, -MAXS - 1, 2**70, -(2**70)]
-FLOAT_BOUNDS = [0.0, 1.0, -1.0, 1e-6, -1e-6, 1e-7, 1e6, -1e6, 2e6, -2e6, 1e16, -1e16, 2.0, 0.1, 3.5e300]
+# the last eight: the edge of the double range (2 * bound overflows beyond 8.98e307; nextafter leaves the finite range at ±max)
+EDGE_FLOAT_BOUNDS = [1e308, -1e308, 1.7e308, -1.7e308, sys.float_info.max, -sys.float_info.max, 8.99e307, -8.99e307]
+FLOAT_BOUNDS = [0.0, 1.0, -1.0, 1e-6, -1e-6, 1e-7, 1e6, -1e6, 2e6, -2e6, 1e16, -1e16, 2.0, 0.1, 3.5e300] + EDGE_FLOAT_BOUNDS
 STR_BOUNDS = ["", "foo", "Zz9", "a"]
 DT_BOUNDS = [D1, D2]
 UUID_BOUNDS = [U0, U1, U2]
@@ -697,6 +713,15 @@ FUEL = 600
 EVENTS = 150_000
 
 
+def _log_diff(c):
+    """Where the request logs part (reported along with a value / status difference)."""
+    a, b = [tuple(x) for x in c.log], [tuple(x) for x in c.m_log]
+    k = next((i for i, (x, y) in enumerate(zip(a, b)) if x != y), min(len(a), len(b)))
+    if k == len(a) == len(b):
+        return {}
+    return {"requests_differ_at": k, "request_implementation": [str(x)[:120] for x in a[k : k + 1]], "request_model": [str(x)[:120] for x in b[k : k + 1]]}
+
+
 def compare(c):
     """Fill c.dis with a description of the first difference between model and implementation (or None)."""
     try:
@@ -708,10 +733,11 @@ def compare(c):
     if c.i_vals != c.m_vals:
         k = next((i for i, (a, b) in enumerate(zip(c.i_vals, c.m_vals)) if a != b), min(len(c.i_vals), len(c.m_vals)))
         c.dis = {"what": "yielded values differ", "position": k, "implementation": c.i_vals[k : k + 2], "model": c.m_vals[k : k + 2],
-                 "len_implementation": len(c.i_vals), "len_model": len(c.m_vals), "status_implementation": c.status, "status_model": c.m_status}
+                 "len_implementation": len(c.i_vals), "len_model": len(c.m_vals), "status_implementation": c.status, "status_model": c.m_status,
+                 **_log_diff(c)}
         return
     if c.status != c.m_status:
-        c.dis = {"what": "final status differs", "status_implementation": c.status, "status_model": c.m_status, "values": len(c.i_vals)}
+        c.dis = {"what": "final status differs", "status_implementation": c.status, "status_model": c.m_status, "values": len(c.i_vals), **_log_diff(c)}
         return
     if c.status in ("more", "stopped"):
         if c.log != c.m_log:
@@ -782,6 +808,47 @@ def judge_values(c, want):
 
 import json as _json
 import random as _random
+
+
+def wire_float(x):
+    return "N" if x is None else S.show(lift_val(x))
+
+
+def float_bounds_corr(rng, n_random):
+    """Model/Gen.lean floatsFrom, nextUpX, nextDownX against helpers.random_floats and math.nextafter.  Returns (cases, disagreements)."""
+    M = sys.float_info.max
+    pts = list(FLOAT_BOUNDS) + float_points() + [M / 2, math.nextafter(M / 2, math.inf), math.nextafter(M / 2, 0.0), -M / 2, math.nextafter(-M / 2, -math.inf),
+                                                 math.nextafter(M, 0.0), math.nextafter(-M, 0.0), math.inf, -math.inf, 5e-324, -5e-324, 2.2250738585072014e-308,
+                                                 -5e-7, 5e-7, 5e5, -5e5, 8.98e307, -8.98e307, 8.9884656743115795e307, -8.9884656743115795e307]
+    pts += [rng.uniform(-1, 1) * 10.0 ** rng.randint(-320, 308) for _ in range(n_random)]
+    reqs, want, what = [], [], []
+    for x in pts:
+        for lo, hi in ((x, None), (None, x)):
+            def first_two(lo=lo, hi=hi):
+                g = _helpers.random_floats(lower=lo, upper=hi)
+                return next(g), next(g)
+            try:
+                (a, b), _ = budget.limited(first_two, 20_000)
+                exp = f"({wire_float(a)} {wire_float(b)})"
+            except budget.Starved:
+                exp = "starved"
+            except NotInUniverse as e:
+                exp = f"outside the universe: {e}"
+            except Exception as e:  # noqa: BLE001
+                exp = f"error:{type(e).__name__}"
+            reqs.append(f"floats {wire_float(lo)} {wire_float(hi)}")
+            want.append(exp)
+            what.append(f"random_floats(lower={lo!r}, upper={hi!r})")
+        for cmd, to in (("nextup", math.inf), ("nextdown", -math.inf)):
+            reqs.append(f"{cmd} {wire_float(x)}")
+            want.append(wire_float(math.nextafter(x, to)))
+            what.append(f"math.nextafter({x!r}, {to!r})")
+    reqs.append("floats N N")
+    want.append(f"({wire_float(-1e-6)} {wire_float(1e6)})")
+    what.append("random_floats()")
+    outs = driver.run(reqs, **EXE)
+    dis = [{"input": {"call": w}, "what": "resolved float bounds / nextafter differ", "implementation": e[:200], "model": o[:200]} for w, e, o in zip(what, want, outs) if e != o]
+    return len(reqs), dis
 
 
 def long_specs(mode):
@@ -962,9 +1029,15 @@ def safety_check(pid, mode, tier):
                     chk.add_failure({"mode": mode, "spec": repr(s), "predicate": show_spec(s), "seed": chk.seed * 1000 + k, "position": i},
                                     {"what": f"generate_{'true' if want else 'false'} yielded a value on which the predicate does not return {want}", "value": repr(v)[:300], "predicate_returned": out},
                                     explain_safety(mode, s, r))
-    # ---- float bounds at the edge of the double range (|b| > 8.9e307: 2*b overflows; the Lean model's exact arithmetic does not
-    # describe overflow, so these are judged on the real code only, with real seeds)
-    edge = [1e308, -1e308, 1.7e308, -1.7e308, sys.float_info.max, -sys.float_info.max, 8.99e307, -8.99e307]
+    # ---- the two float helpers of the model on their own, against the real functions: the resolved bounds of random_floats(lower=x) /
+    # (upper=x) (driver command `floats`; Model/Gen.lean floatsFrom) and math.nextafter(x, ±inf) (nextUpX / nextDownX), infinities included
+    fb_cases, fb_dis = float_bounds_corr(rng, 150 if quick else 1500)
+    chk.add_corr("random_floats/bounds+nextafter", fb_cases, fb_dis, note="first two values of the real random_floats(lower=x) and (upper=x) vs floatsFrom; math.nextafter(x, ±inf) vs nextUpX/nextDownX; grid bounds, "
+                 "±max/2 and neighbours, ±max and neighbours, ±inf, subnormals, seeded doubles of every exponent")
+    dis = dis + fb_dis
+    # ---- float bounds at the edge of the double range (|b| > 8.9e307: 2*b overflows).  They are part of the parameter grid above
+    # (the model clamps like the code and has ±inf as values); this stage stays as an independent check on the real code with real seeds
+    edge = EDGE_FLOAT_BOUNDS
     edge_specs = [(h, b) for h in (("ge", "gt", "le", "lt") if mode == "T" else ("ge", "gt")) for b in edge]
     edge_judged = 0
     for s_ in edge_specs:
@@ -983,7 +1056,14 @@ def safety_check(pid, mode, tier):
                                     {"what": f"generate_{'true' if want else 'false'} yielded a value on which the predicate does not return {want} (bound at the edge of the double range)", "value": repr(v)[:300], "predicate_returned": out},
                                     explain_safety(mode, s_, r))
                     break
-    chk.extra["edge_of_double_range"] = {"specs": len(edge_specs), "values_judged": edge_judged}
+    edge_cases = [c for c in cases if c.spec[0] in _UNARY and isinstance(c.spec[1], float) and abs(c.spec[1]) > 8.9e307]
+    chk.extra["edge_of_double_range"] = {
+        "specs": len(edge_specs), "values_judged": edge_judged,
+        "correspondence_cases_in_grid": len(edge_cases),
+        "correspondence_cases_yielding_inf": sum(1 for c in edge_cases if any(isinstance(v, float) and math.isinf(v) for v in c.items)),
+        "correspondence_cases_with_uniform_requests": sum(1 for c in edge_cases if any(r[0] == "uniform" for r in c.log)),
+        "uniform_requests_ending_at_the_largest_double": sum(1 for c in edge_cases for r in c.log if r[0] == "uniform" and isinstance(r[1], int) and isinstance(r[2], int) and fk(sys.float_info.max) in (abs(r[1]), abs(r[2]))),
+    }
     # ---- history: the values a stream yields belong to the caller.  Draw from both generators of a spec, change every
     # yielded container in place (empty ones get an item, non-empty ones are emptied; nested ones too), then open a NEW
     # stream: its values must still satisfy / violate the predicate (a sample object shared between streams shows here)
@@ -1018,7 +1098,7 @@ def safety_check(pid, mode, tier):
                      values_judged_with_real_seeds=searched, max_line_events_per_successful_next=max_events, fuel=FUEL, events_budget=EVENTS,
                      int_bounds=[str(x) for x in INT_BOUNDS], float_bounds=FLOAT_BOUNDS)
     chk.rule = (
-        "parameter grid of DESIGN §7 C09: comparison kinds x int bounds 0, ±1, ±99, ±100, ±101, ±1000, ±sys.maxsize, beyond; float bounds 0, ±1, ±1e-6, 1e-7, ±1e6, ±2e6, ±1e16, 2.0, 0.1, 3.5e300; "
+        "parameter grid of DESIGN §7 C09: comparison kinds x int bounds 0, ±1, ±99, ±100, ±101, ±1000, ±sys.maxsize, beyond; float bounds 0, ±1, ±1e-6, 1e-7, ±1e6, ±2e6, ±1e16, 2.0, 0.1, 3.5e300 and the edge of the double range ±8.99e307, ±1e308, ±1.7e308, ±sys.float_info.max; "
         "str / datetime / UUID constants; eq/ne constants; membership sets ∅, small, range(-100,101), str members, float members; all type tests; has_key; composites two levels deep "
         "(fixed list + seeded random).  Per spec: tapes all-low, all-high, alternating and seeded mixed (extremes of each requested range, values around the bounds); first %d next() results of the "
         "real generator (random source replaced by the tape, every next under a line-event budget) compared with driver_gen: values, request log, status.  Every yielded value is judged by the real "
@@ -1027,7 +1107,7 @@ def safety_check(pid, mode, tier):
     chk.samples = [f"generate_{'true' if want else 'false'}({show_spec(c.spec)}) [{c.style}] -> {' '.join(c.m_vals[:3])[:160]} … {c.status}" for c in cases[5::max(1, len(cases) // 12)]]
     chk.assumptions = [
         "random.randint/uniform/randrange/choices, uuid4, datetime.now answer within their documented range (the tape answers clamp(raw, lo, hi)); random_permutation of a set is modelled as the members in a fixed order",
-        "floats are exact multiples of 2^-1074 (finite doubles); bounds above 8.9e307 (2*bound overflows) and NaN/inf are outside the model",
+        "floats are exact multiples of 2^-1074 (finite doubles) or ±inf (wire form (F 0|1)); the model clamps the widened default bounds of random_floats to ±sys.float_info.max like the code; NaN and infinite *bounds* (gt_p(math.inf), …) are outside the model and the grid",
         "exrex (regex_p) is not modelled; more_itertools.take/interleave/random_combination_with_replacement/powerset_of_sets and zip are modelled from their documented behaviour and exercised for real",
         "the optimizer guards of & are parameters of the model node (computed by the real optimize in the harness)",
     ]
@@ -1055,7 +1135,19 @@ def safety_replay(path, mode):
             spoil(v)
         items, st, log, _ = pull_impl(mode, build(spec), 14, EVENTS, seed=inp["seed"])
     elif "tape_rle" in inp:
-        items, st, log, _ = pull_impl(mode, p, inp.get("n", 30), EVENTS, raws=unrle(inp["tape_rle"]))
+        # a tape-driven case: run both sides again, a disagreement between model and implementation reproduces the failure too
+        try:
+            c = Case()
+            c.mode, c.spec, c.pred, c.sx, c.raws, c.style, c.n = mode, spec, p, sexp(spec, p), unrle(inp["tape_rle"]), inp.get("style", "replay"), inp.get("n", 30)
+            (c.m_status, c.m_vals, c.m_log), = run_model([model_request(mode, c.sx, c.n, FUEL * 10, c.raws)])
+            c.items, c.status, c.log, c.worst = pull_impl(mode, p, c.n, EVENTS * 10, raws=c.raws)
+            compare(c)
+            items, st, log = c.items, c.status, c.log
+            if c.dis:
+                print("model and implementation disagree:", _json.dumps(c.dis)[:1500])
+                return 1
+        except GuardUnknown:
+            items, st, log, _ = pull_impl(mode, p, inp.get("n", 30), EVENTS, raws=unrle(inp["tape_rle"]))
     else:
         items, st, log, _ = pull_impl(mode, p, inp.get("position", 0) + 1, EVENTS, seed=inp["seed"])
     bad = [(i, repr(v)[:200], call(p, v)) for i, v in enumerate(items) if call(p, v) is not want]
